@@ -1126,6 +1126,8 @@ impl Prop for C12Sendable {
                 let r = catch_unwind(AssertUnwindSafe(|| {
                     send.dispatch(&world);
                     send.dispatch_seq(&world);
+                    // the sendable form is a RunNow object too
+                    shred::RunNow::run_now(&mut send, &world);
                 }));
                 ctx.set_phase(PHASE_BUILD);
                 ctx.take_log();
@@ -1136,8 +1138,34 @@ impl Prop for C12Sendable {
                     ));
                 }
                 // inner `dispatch` calls of batches run their own thread-local systems
-                let exp = expected_runs(&flat, 2, 0);
+                let exp = expected_runs(&flat, 3, 0);
                 check_counts(&flat, &ctx.runs(), &exp)?;
+                // setup and dispose through the trait reach every system once
+                let mut w2 = World::empty();
+                ctx.reset_counters();
+                ctx.set_phase(PHASE_SETUP);
+                let r = catch_unwind(AssertUnwindSafe(|| {
+                    shred::RunNow::setup(&mut send, &mut w2);
+                    shred::RunNow::dispose(Box::new(send), &mut w2);
+                }));
+                ctx.set_phase(PHASE_BUILD);
+                if let Err(p) = r {
+                    return Err(Fail::keyed(
+                        "panic",
+                        format!("RunNow::setup / dispose of the sendable form panicked: {}", panic_msg(&p)),
+                    ));
+                }
+                for s in flat.sys.iter().filter(|s| !s.is_batch) {
+                    let (su, di) = (ctx.setup[s.idx].load(SeqCst), ctx.dispose[s.idx].load(SeqCst));
+                    if (su, di) != (1, 1) {
+                        return Err(Fail::new(format!(
+                            "RunNow::setup / RunNow::dispose of the sendable form reached system {} {} / {} times, expected once each",
+                            s.sid(),
+                            su,
+                            di
+                        )));
+                    }
+                }
             }
             Err(mut d) => {
                 st.class("refused");
